@@ -68,6 +68,11 @@ CLAIMS = {
          '(so all components hold the residues of ONE integer), at scale 1 and on the requested level, and to refuse unknown levels, non-CKKS contexts and values whose bit count + 2 reaches the total modulus size. '
          'Not covered (the larger part of the property): every floating-point path (vector / single real / single complex / coefficient list, the three magnitude branches, FFT and root tables, decode) - Verus has no model of f64 arithmetic, rounding or casts, '
          'so "rounded scaled canonical embedding up to double-precision error" cannot be stated as a contract; those paths are NOT decided.', '5 C12'),
+ 'C13': ('The helper functions parameter generation and identification are built from, each against an integer specification: util::get_primes returns exactly `count` moduli, strictly decreasing (hence distinct), each of exactly bit_size bits, congruent to 1 modulo the factor (2N) and accepted by the primality test, '
+         'never underflows, terminates, and refuses (panics) rather than returning a short list; util::is_prime never accepts a value below 2 or a proper multiple of 2,3,5,7,11,13 and terminates (its Miller-Rabin rounds use random bases, so "accepted => prime" is probabilistic and is NOT a contract); '
+         'Modulus::new / set_value store that answer, the bit count and the Barrett constants equal to their definitions, and refuse values of more than 61 bits or equal to 1; get_power_of_two returns k exactly when the value is 2^k and -1 otherwise; '
+         'EncryptionParameters::compute_parms_id hashes exactly the words (scheme, N, q_1..q_k, t) in that order and refuses the reserved all-zero identifier, so the identifier is a deterministic function of the parameters (collision freedom is SHA-256\'s, assumed). '
+         'Not covered: HeContext::validate (error ladder, per-level constants) and the chain construction in HeContext::new / create_next_context_data (HashMap, Arc::as_ptr().cast_mut(), iterator closures) - the chain model used by the other units (specs/common/ctx_env.vinc) remains an ASSUMPTION; CoeffModulus::create (HashMap), the security tables.', '5 C13'),
  'C15': ('Serializers without context (scalars, Vec<T>, Modulus, ParmsID, SchemeType, Plaintext, EncryptionParameters, byte-width packing helpers) are verified '
          'against an abstract model of std::io::{Read,Write} quantified over all implementations: Ok implies the complete encoding was written / exactly one encoding '
          'consumed, and no unwrap/panic is reachable. Context-dependent objects (ciphertexts, keys, containers) are not covered.', '5 C15'),
@@ -80,7 +85,7 @@ NOT_APPLICABLE = {
  'C18': 'agreement across n parties and all message delivery orders is a whole-history property; the per-call code sits behind iterator closures, context plumbing and serialization and no contract within reach connects it to "keys correspond to the sum of secret keys"',
 }
 
-PENDING = ['C07', 'C11', 'C13', 'C20']
+PENDING = ['C07', 'C11', 'C20']
 
 
 def main():
